@@ -14,6 +14,17 @@ extracted EDSpec: U_to^+ (Jordan-Wigner block) U_from with the dumped eigenvecto
   (b) stored c block == adjoint of the stored c^+ block, exactly, == model of the container's copy;
   (c) U_to * stored * U_from^+ == Jordan-Wigner block (1e-12 + what pruning removed);
   (d) assembled over all blocks: {c_i, c^+_j} = delta_ij, {c_i, c_j} = 0, {c^+_i, c^+_j} = 0 to 1e-7.
+
+Container histories (harness/h_c10.cpp): the container may be filled in several steps.  Per scenario a fresh FieldOperatorContainer is
+driven through every history of `histories()` -- prepareAll(S1); computeAll(); prepareAll(S2); computeAll(); ... with ascending, descending,
+overlapping and repeated index sets, prepareAll() (default argument: all indices) before / after a subset, two prepareAll before one
+computeAll, one index at a time in both orders, random sequences; every history ends with computeAll() -- and every operator that was
+requested is then read through getCreationOperator / getAnnihilationOperator and dumped in the OPMAP / OPMAT format of h_ed.  Each history is
+verified in one of two ways: its records are identical, bit for bit, to those of the container filled in one go, which (a)-(d) above have
+just verified against model and specification; or (always for two histories per scenario, and whenever the records are not identical)
+the full analysis (a)-(d) is run on the history's own records, one-by-one operators included.
+Model of the history semantics and its theorem: theories/ContainerHistory.v, ContainerHistoryProofs.v, Properties_C10.container_history_complete
+(after any history that ends with computeAll every requested operator is computed and equals the one-by-one operator; c = adjoint of c^+).
 """
 import json
 import pv
@@ -28,6 +39,7 @@ HX = hl.HX
 def setup():
     hl.driver()
     edlib.binaries("real")
+    pv.build_harness("h_c10", "real")
 
 
 def queries(n, rng, quick):
@@ -47,17 +59,24 @@ def close(a, b, scale=1.0):
 
 def analyse(text, variant, qs):
     """returns (run, failures [(kind, is_impl_violation, detail)], facts)"""
-    fails = []
     r = edlib.run(text, qs, variant=variant)
     if r.error or r.crash or not r.dumprec("VEC"):
         return r, [("workflow", False, "error=%r crash=%r" % (r.error, r.crash))], {}
-    rc, mo, err = hl.model(r.dump, ["ops", "car"])
+    fails, facts = analyse_dump(r.dump)
+    return r, fails, facts
+
+
+def analyse_dump(dump):
+    """dump: records N, HPOLY, NBLOCKS, BLOCK, VEC, EIG, OPMAP, OPMAT (+ COLROWDIFF) of h_ed / h_c10.
+    returns (failures [(kind, is_impl_violation, detail)], facts)"""
+    fails = []
+    rc, mo, err = hl.model(dump, ["ops", "car"])
     if rc or any(t[0] == "DRIVER-ERROR" for t in mo):
-        return r, [("driver", False, "rc=%d %s %s" % (rc, err[-200:], [t for t in mo if t[0] == "DRIVER-ERROR"][:2]))], {}
-    ops = hl.opmats(r.dump)
-    maps = hl.opmaps(r.dump)
-    if [t for t in r.dump if t[0] == "COLROWDIFF"]:
-        fails.append(("colrow", True, "column-major and row-major copies of a stored part differ: %r" % [t for t in r.dump if t[0] == "COLROWDIFF"][:1]))
+        return [("driver", False, "rc=%d %s %s" % (rc, err[-200:], [t for t in mo if t[0] == "DRIVER-ERROR"][:2]))], {}
+    ops = hl.opmats(dump)
+    maps = hl.opmaps(dump)
+    if [t for t in dump if t[0] == "COLROWDIFF"]:
+        fails.append(("colrow", True, "column-major and row-major copies of a stored part differ: %r" % [t for t in dump if t[0] == "COLROWDIFF"][:1]))
     mopd, mops, sop, back, mcopy, mmap, outside = {}, {}, {}, {}, {}, {}, {}
     for t in mo:
         if t[0] in ("MOPD", "SOP"):
@@ -170,7 +189,125 @@ def analyse(text, variant, qs):
         if not (a <= CAR_TOL and b <= CAR_TOL and c <= CAR_TOL):
             fails.append(("car", True, "%s: max|{c_i,c^+_j}-delta_ij| = %.3e, max|{c_i,c_j}| = %.3e, max|{c^+_i,c^+_j}| = %.3e over %d indices" % (
                 "container" if k == "c" else "one-by-one", a, b, c, cnt)))
-    return r, fails, {"parts": len(ops), "pruned_nonzero": npruned, "car": cars.get("c"), "back_max": max(back.values()) if back else None}
+    return fails, {"parts": len(ops), "pruned_nonzero": npruned, "car": cars.get("c"), "back_max": max(back.values()) if back else None}
+
+
+# ---------------------------------------------------------------------------------------------------------------
+# container histories
+
+def histories(n, rng, quick):
+    """list of (kind, token string): P i j .. = prepareAll({i, j, ..}), P alone = prepareAll() (all indices), C = computeAll().
+    Every history ends with C."""
+    idx = list(range(n))
+    lo = idx[:max(1, n // 2)]
+    hi = idx[len(lo):] or idx
+    P = lambda s: "P " + " ".join(str(i) for i in sorted(s))
+    out = [("ascending-sets", "%s C %s C" % (P(lo), P(hi))),
+           ("descending-sets", "%s C %s C" % (P(hi), P(lo))),
+           ("overlapping-sets", "%s C %s C" % (P(lo + hi[:1]), P(lo[-1:] + hi))),
+           ("same-set-twice", "%s C %s C" % (P(idx), P(idx))),
+           ("subset-twice", "%s C %s C" % (P(hi), P(hi))),
+           ("default-then-subset", "P C %s C" % P(hi)),
+           ("subset-then-default", "%s C P C" % P(lo)),
+           ("two-prepares-one-compute", "%s %s C" % (P(lo), P(hi))),
+           ("compute-on-empty-then-fill", "C %s C %s C" % (P(hi), P(lo))),
+           ("one-at-a-time-up", " ".join("P %d C" % i for i in idx)),
+           ("one-at-a-time-down", " ".join("P %d C" % i for i in reversed(idx))),
+           ("subset-only", "%s C C" % P(lo))]
+    for _ in range(2 if quick else 5):
+        steps = []
+        for _ in range(rng.randint(2, 4)):
+            sub = [i for i in idx if rng.random() < 0.5] or [rng.choice(idx)]
+            steps.append(P(sub) + (" C" if rng.random() < 0.75 else ""))
+        out.append(("random", " ".join(steps) + (" C" if not steps[-1].endswith("C") else "")))
+    return out
+
+
+def requested(tokens, n):
+    """indices the history asks the container for"""
+    t = tokens.split()
+    req = set()
+    p = 0
+    while p < len(t):
+        if t[p] == "P":
+            p += 1
+            sub = []
+            while p < len(t) and t[p] not in ("P", "C"):
+                sub.append(int(t[p]))
+                p += 1
+            req |= set(sub) if sub else set(range(n))
+        else:
+            p += 1
+    return req
+
+
+def run_histories(text, variant, hists):
+    """h_c10 on one scenario: returns (error or None, base records, single records, [records of history k])"""
+    hb = pv.build_harness("h_c10", variant)
+    inp = "model\n%s\nend\n%s\nsingle\n" % (text.strip(), "\n".join("history " + h for h in hists))
+    rc, out, err = pv.run_harness(hb, inp, timeout=600)
+    recs = [l.split() for l in out.split("\n") if l.strip()]
+    if rc != 0:
+        return "harness exit code %d: %s" % (rc, (pv.sanitizer_digest(err) or err)[-400:]), [], [], []
+    if not recs or recs[0][0] != "BUILT":
+        return "build: %s" % " ".join(recs[0] if recs else ["no output"]), [], [], []
+    base, single, per = [], [], []
+    where = base
+    for t in recs[1:]:
+        if t[0] == "HISTORY":
+            per.append([])
+            where = per[-1]
+        elif t[0] == "ENDHISTORY":
+            where = base
+        elif t[0] == "SINGLE":
+            where = single
+        elif t[0] == "THROWS":
+            return "a query threw: " + " ".join(t), base, single, per
+        else:
+            where.append(t)
+    if len(per) != len(hists):
+        return "%d history blocks for %d histories" % (len(per), len(hists)), base, single, per
+    return None, base, single, per
+
+
+STATUS = {0: "Constructed", 1: "Prepared", 2: "Computed"}
+
+
+def analyse_history(base, single, hrecs, tokens, ref=None, force_full=False):
+    """one history: returns (failures, facts, how) with how = "identical-to-one-go" | "full-analysis".
+    ref = (opmats, opmaps) of the container filled in one go, already verified by analyse_dump."""
+    n = int(next(t[1] for t in base if t[0] == "N"))
+    req = requested(tokens, n)
+    fails = []
+    missing = [t for t in hrecs if t[0] == "OPMISSING"]
+    if missing:
+        fails.append(("missing", True, "after the history [%s] the container holds no %s" % (tokens, ", ".join("%s_%s" % ("c^+" if t[1] == "cdag" else "c", t[2]) for t in missing))))
+    ops, maps = hl.opmats(hrecs), hl.opmaps(hrecs)
+    if ref is not None and not force_full and not missing and not [t for t in hrecs if t[0] == "COLROWDIFF"]:
+        rops = {k: v for k, v in ref[0].items() if k[0] in ("cdag", "c") and k[1] in req}
+        rmaps = {k: v for k, v in ref[1].items() if k[0] in ("cdag", "c") and k[1] in req}
+        if ops == rops and maps == rmaps:
+            return fails, {"parts": len(ops)}, "identical-to-one-go"
+    status = {(t[1], int(t[2])): int(t[3]) for t in hrecs if t[0] == "OPSTATUS"}
+    one = [t for t in single if t[0] in ("OPMAP", "OPMAT", "COLROWDIFF") and int(t[2]) in req]
+    f2, facts = analyse_dump(base + [t for t in hrecs if t[0] in ("OPMAP", "OPMAT", "COLROWDIFF")] + one)
+    notcomp = sorted(k for k, v in status.items() if v < 2)
+    for fk, is_impl, detail in f2:
+        if is_impl and notcomp:
+            detail += "  [status after the history: %s]" % ", ".join("%s_%d %s" % ("c^+" if k[0] == "cdag" else "c", k[1], STATUS.get(status[k], status[k])) for k in notcomp[:6])
+        fails.append((fk, is_impl, "after the history [%s]: %s" % (tokens, detail) if fk not in ("driver",) else detail))
+    return fails, facts, "full-analysis"
+
+
+def history_fails(text, variant, tokens):
+    """for shrinking / replay: failures of one history on one scenario (full analysis); [] when the scenario does not build"""
+    err, base, single, per = run_histories(text, variant, [tokens])
+    if err:
+        return [("workflow", False, err)]
+    n = int(next(t[1] for t in base if t[0] == "N"))
+    if any(i >= n for i in requested(tokens, n)):
+        return [("workflow", False, "history refers to an index >= %d" % n)]
+    return analyse_history(base, single, per[0], tokens, force_full=True)[0]
 
 
 UNSOUND = [("hubbard-atom, custom candidate n_0*n_1 (accepted by checkSymmetry: DESIGN.md section 5 item 5, property C07)",
@@ -212,7 +349,12 @@ def unsound_tie(chk):
             chk.tie_broken("model on a partition the operator does not respect", "part %r of scenario %s" % (bad, hl.canon(text)))
 
 
-def report(chk, variant, text, qs, fails):
+def report(chk, variant, text, qs, fails, history=None):
+    """history: token string when the failures come from a container history (then the full analysis of that history is what is re-run)"""
+    if history is None:
+        rerun = lambda cand: analyse(cand, variant, qs)[1]
+    else:
+        rerun = lambda cand: history_fails(cand, variant, history)
     seen = set()
     for fk, is_impl, detail in fails:
         if fk in seen:
@@ -224,23 +366,65 @@ def report(chk, variant, text, qs, fails):
                 chk.tie_broken("driver_c03", detail)
             continue
         cnt = chk.extra.setdefault("failures_by_kind", {})
-        cnt[fk + "|" + variant] = cnt.get(fk + "|" + variant, 0) + 1
-        if cnt[fk + "|" + variant] > 2:
+        ck = ("history-" if history else "") + fk + "|" + variant
+        cnt[ck] = cnt.get(ck, 0) + 1
+        if cnt[ck] > 2:
             continue                      # two shrunk instances per kind and build are reported; the count stays in the evidence
-        small = hl.shrink(text, lambda cand: any(f[0] == fk for f in analyse(cand, variant, qs)[1])) 
-        _, f2, _ = analyse(small, variant, qs)
+        small = hl.shrink(text, lambda cand: any(f[0] == fk for f in rerun(cand)))
+        f2 = rerun(small)
         d2 = next((f[2] for f in f2 if f[0] == fk), detail)
         rep = {"check": "C10", "kind": fk, "variant": variant, "scenario": small, "original": text, "queries": qs, "detail": d2}
-        if is_impl:
+        if history:
+            rep["history"] = history
+            rep["harness"] = "h_c10"
+        if is_impl and history:
+            chk.violation("history-%s|%s|%s|%s" % (fk, variant, hl.canon(small), history), "container history, %s: %s  [scenario: %s]" % (fk, d2, hl.canon(small)), rep)
+        elif is_impl:
             chk.violation("%s|%s|%s" % (fk, variant, hl.canon(small)), "%s: %s  [scenario: %s]" % (fk, d2, hl.canon(small)), rep)
         else:
             chk.tie_broken("model-vs-implementation " + fk, "%s  [scenario (%s): %s]" % (d2, variant, hl.canon(small)))
 
 
+def run_history_cases(chk, variant, text, nm, r, one_go_failed, quick, nscen, hstat):
+    hs = histories(nm, chk.rng, quick)
+    tokens = [h for _, h in hs]
+    err, base, single, per = run_histories(text, variant, tokens)
+    if err:
+        hstat["skipped"] += 1
+        chk.extra.setdefault("skipped", []).append({"why": "histories", "detail": err, "scenario": hl.canon(text)})
+        if not err.startswith("build:"):
+            # the one-go workflow ran on this scenario, so a crash / exception here comes from the history itself
+            chk.violation("history-crash|%s|%s" % (variant, hl.canon(text)), "container histories: %s  [scenario: %s]" % (err, hl.canon(text)),
+                          {"check": "C10", "kind": "history-crash", "variant": variant, "scenario": text, "histories": tokens, "harness": "h_c10", "detail": err})
+        return
+    hstat["scenarios"] += 1
+    # the container filled in one go, as dumped by h_ed and verified by analyse() -- only when that analysis found nothing
+    ref = None if one_go_failed else (hl.opmats(r.dump), hl.opmaps(r.dump))
+    nfull = 2 if quick else 4
+    forced = set((nscen * nfull + k) % len(hs) for k in range(nfull))      # rotates through the history kinds from scenario to scenario
+    for k, (hk, tk) in enumerate(hs):
+        fails, facts, how = analyse_history(base, single, per[k], tk, ref=ref, force_full=(k in forced))
+        hstat["histories"] += 1
+        hstat["by_kind"][hk] = hstat["by_kind"].get(hk, 0) + 1
+        if how == "identical-to-one-go":
+            hstat["verified_identical_to_one_go"] += 1
+        else:
+            hstat["verified_by_full_analysis"] += 1
+            if k not in forced and ref is not None:
+                hstat["not_identical_to_one_go"] += 1
+        chk.case("history|%s|%s|%s" % (variant, hl.canon(text), tk), "container-history|%s|%s|%s" % (hk, how, variant), nontrivial=True,
+                 sample={"scenario": hl.canon(text), "variant": variant, "history": tk, "kind": hk, "verified": how, "stored_parts": facts.get("parts")}
+                 if (hk == "ascending-sets" and nscen % 9 == 1) else None)
+        if fails:
+            report(chk, variant, text, [], fails, history=tk)
+
+
 def run(chk):
     quick = chk.tier == "quick"
     ok, log = chk.prove(["extract/Extract_C03.vo", "extract/Extract_ED.vo"])
-    chk.trusted += ["extraction (ExtrOcamlBasic, ExtrOcamlNatInt, ExtrOCamlFloats), ocaml/driver_c03.ml (parsing, sparse<->dense, printing), harness/h_ed.cpp, tools/edlib.py",
+    chk.trusted += ["extraction (ExtrOcamlBasic, ExtrOcamlNatInt, ExtrOCamlFloats), ocaml/driver_c03.ml (parsing, sparse<->dense, printing), harness/h_ed.cpp, harness/h_c10.cpp, tools/edlib.py",
+                    "theories/ContainerHistory.v is a hand-written model of FieldOperatorContainer::prepareAll / computeAll (not extracted, not translated): its theorem says what "
+                    "every history must produce, the history runs compare the library with the specification directly",
                     "mathcomp 1.15 (ssreflect, algebra) as installed",
                     "rotation_formula_model is about the model at an exact field (zero tests exact); the run-time instance is binary64 (compared with 1e-12)",
                     "anticommutation relations of the Jordan-Wigner matrices in the Fock basis: hypotheses of car_eigenbasis_partial (C05: CAR.v on basis states); "
@@ -258,6 +442,8 @@ def run(chk):
         plan.append(("complex", False, 30))
     unsound_tie(chk)
     worst = {"back": 0.0, "car": 0.0, "parts": 0, "pruned_nonzero": 0}
+    hstat = {"scenarios": 0, "histories": 0, "verified_identical_to_one_go": 0, "verified_by_full_analysis": 0, "not_identical_to_one_go": 0, "skipped": 0, "by_kind": {}}
+    nscen = 0
     for variant, cplx, count in plan:
         edlib.binaries(variant)
         for family, kind, text, nm in hl.gen_cases(chk.rng, count, variant, complex_amplitudes=cplx):
@@ -277,17 +463,33 @@ def run(chk):
             worst["pruned_nonzero"] += facts.get("pruned_nonzero", 0)
             if fails:
                 report(chk, variant, text, qs, fails)
+            # container histories: verified by identity with the one-go container records just analysed, or by their own full analysis
+            if not any(f[0] == "driver" for f in fails):
+                nscen += 1
+                run_history_cases(chk, variant, text, nm, r, bool(fails), quick, nscen, hstat)
+    chk.extra["container_histories"] = hstat
     chk.extra["observed"] = {"max_rotate_back_deviation": worst["back"], "max_CAR_deviation": worst["car"], "stored_parts_compared": worst["parts"],
                              "nonzero_entries_absent_below_threshold": worst["pruned_nonzero"]}
     chk.rule = ("scenario = model family x partition (default, ignored, custom integrals of motion N / S_z / N and S_z / per-site charges) x build, as for C03; per scenario every "
                 "stored part of every c^+_i, c_i (container and one-by-one) and of a random sample of c^+_i c_j is compared; distinct = distinct canonical scenario + query set; "
-                "non-trivial = at least one block larger than 1x1; the signature names family, partition and accepted symmetries, block shapes, degenerate or not, build")
+                "non-trivial = at least one block larger than 1x1; the signature names family, partition and accepted symmetries, block shapes, degenerate or not, build. "
+                "Container histories: per scenario 14 (quick) / 17 histories of prepareAll / computeAll calls (12 fixed shapes built from the lower and upper half of the index "
+                "range + random ones); a history is verified by bit-identity of all its operator records with the one-go container verified in the same scenario, or by the "
+                "full analysis (2 / 4 histories per scenario, rotating through the shapes, and every history whose records are not identical); distinct = scenario + history")
 
 
 def replay(chk, path):
     obj = json.load(open(path))
     rep = obj.get("replay", {})
     print(json.dumps(obj, indent=1)[:3000])
+    if isinstance(rep, dict) and "scenario" in rep and ("history" in rep or "histories" in rep):
+        for tk in ([rep["history"]] if "history" in rep else rep["histories"]):
+            fails = history_fails(rep["scenario"], rep.get("variant", "real"), tk)
+            print("history [%s] failures now:" % tk, fails)
+            for fk, is_impl, detail in fails:
+                if is_impl or (fk == "workflow" and rep.get("kind") == "history-crash"):
+                    chk.violation("history-%s|%s|%s|%s" % (fk, rep.get("variant", "real"), hl.canon(rep["scenario"]), tk), "container history, %s: %s" % (fk, detail), rep)
+        return chk.finish()
     if isinstance(rep, dict) and "scenario" in rep:
         r, fails, facts = analyse(rep["scenario"], rep.get("variant", "real"), rep.get("queries", ["opsingle 0"]))
         print("failures now:", fails)
